@@ -303,8 +303,19 @@ func runC26(c *Ctx) {
 		okF := false
 		ast.Inspect(fh.Decl.Body, func(n ast.Node) bool {
 			if r, ok := n.(*ast.ReturnStmt); ok && len(r.Results) == 1 {
-				s := types.ExprString(r.Results[0])
-				okF = s == `host + ":" + strconv.Itoa(port)`
+				// <string param> + ":" + strconv.Itoa(<int param>)
+				if outer, ok := ast.Unparen(r.Results[0]).(*ast.BinaryExpr); ok && outer.Op == token.ADD {
+					if inner, ok := ast.Unparen(outer.X).(*ast.BinaryExpr); ok && inner.Op == token.ADD {
+						ps := fh.Obj.Type().(*types.Signature).Params()
+						sep, isS := strConst(fh.Info(), inner.Y)
+						call, isCall := ast.Unparen(outer.Y).(*ast.CallExpr)
+						if ps.Len() == 2 && isS && sep == ":" && objOf(fh.Info(), inner.X) == types.Object(ps.At(0)) && isCall && len(call.Args) == 1 && objOf(fh.Info(), call.Args[0]) == types.Object(ps.At(1)) {
+							if cal := callee(fh.Info(), call); cal != nil && cal.Name() == "Itoa" {
+								okF = true
+							}
+						}
+					}
+				}
 			}
 			return true
 		})
@@ -354,8 +365,77 @@ func runC26(c *Ctx) {
 					"field "+f+" may contain '"+st.delim+"' (e.g. an IPv6 host such as ::1), so String() output does not parse back: the cut lands inside the field")
 			}
 		}
-		// the cut results reach New / NewWithParent in matching positions
+		// the cut results reach New / NewWithParent in matching positions. Variables are identified by the cut that
+		// binds them (roles), never by their names.
 		info := parse.Info()
+		roleNames := [][2]string{{"scheme", "rest1"}, {"system", "rest2"}, {"hostPort", "path"}, {"host", "portStr"}, {"parent", "name"}}
+		role := map[string]string{} // variable name in Parse -> role; names are consistent within one function
+		chain := ""
+		for i, st := range steps {
+			if _, dup := role[st.left]; !dup {
+				role[st.left] = roleNames[i][0]
+			}
+			role[st.right] = roleNames[i][1] // "rest" is re-bound by successive cuts: the latest binding wins for later uses
+			want := map[int]string{1: steps[0].right, 2: steps[1].right, 3: steps[2].left, 4: steps[2].right}
+			if i > 0 && st.operand != want[i] {
+				chain += fmt.Sprintf("cut%d operates on %s ", i+1, st.operand)
+			}
+		}
+		c.Check(chain == "", "bindings", "each cut operates on the remainder bound by the cut before it (rest, rest, hostPort, path)", c.P.Pos(parse.Decl.Pos()), chain)
+		var roleOf func(e ast.Expr, depth int) string
+		roleOf = func(e ast.Expr, depth int) string {
+			e = ast.Unparen(e)
+			if depth > 6 {
+				return "?"
+			}
+			switch x := e.(type) {
+			case *ast.Ident:
+				if r, ok := role[x.Name]; ok && info.ObjectOf(x) != nil {
+					return r
+				}
+				obj := info.ObjectOf(x)
+				set := map[string]bool{}
+				ast.Inspect(parse.Decl.Body, func(n ast.Node) bool {
+					as, ok := n.(*ast.AssignStmt)
+					if !ok {
+						return true
+					}
+					for i, l := range as.Lhs {
+						if id, ok := l.(*ast.Ident); ok && info.ObjectOf(id) == obj {
+							var rhs ast.Expr
+							if len(as.Rhs) == len(as.Lhs) {
+								rhs = as.Rhs[i]
+							} else if len(as.Rhs) == 1 {
+								rhs = as.Rhs[0]
+							}
+							if s, isS := strConst(info, rhs); isS && s == "" {
+								continue
+							}
+							set[roleOf(rhs, depth+1)] = true
+						}
+					}
+					return true
+				})
+				return strings.Join(sortedKeys(set), "|")
+			case *ast.CallExpr:
+				if tv, ok := info.Types[x.Fun]; ok && tv.IsType() && len(x.Args) == 1 {
+					return roleOf(x.Args[0], depth+1)
+				}
+				if cal := callee(info, x); cal != nil {
+					if (cal.Name() == "ParseInt32" || cal.Name() == "Atoi") && len(x.Args) == 1 {
+						return "int(" + roleOf(x.Args[0], depth+1) + ")"
+					}
+					if cal.Name() == "New" && cal.Pkg() != nil && cal.Pkg().Path() == modPath+"/internal/address" {
+						var as []string
+						for _, a := range x.Args {
+							as = append(as, roleOf(a, depth+1))
+						}
+						return "New(" + strings.Join(as, ",") + ")"
+					}
+				}
+			}
+			return "?"
+		}
 		okNew := 0
 		ast.Inspect(parse.Decl.Body, func(n ast.Node) bool {
 			call, ok := n.(*ast.CallExpr)
@@ -368,30 +448,18 @@ func runC26(c *Ctx) {
 			}
 			args := []string{}
 			for _, a := range call.Args {
-				args = append(args, types.ExprString(a))
+				args = append(args, roleOf(a, 0))
 			}
 			s := strings.Join(args, ",")
-			if s == "name,system,host,port" || s == "parentName,system,host,port" || s == "name,system,host,port,parent" {
+			switch s {
+			case "name|path,system,host,int(portStr)", "parent,system,host,int(portStr)", "name|path,system,host,int(portStr),New(parent,system,host,int(portStr))":
 				okNew++
-			} else {
-				c.Bad("new-args/"+s, "parsed components are passed to the constructor in (name, system, host, port) order", c.P.Pos(call.Pos()), "arguments: "+s)
+			default:
+				c.Bad("new-args/"+s, "parsed components are passed to the constructor in (name, system, host, port) order", c.P.Pos(call.Pos()), "arguments by role: "+s)
 			}
 			return true
 		})
 		c.Check(okNew == 3, "new-args", "Parse builds the address (and its parent) from (name, system, host, port) with the parsed values", c.P.Pos(parse.Decl.Pos()), fmt.Sprintf("%d constructor calls recognised", okNew))
-		// variable flow of the cuts: the names used above are bound by the cuts
-		bound := map[string]bool{}
-		for _, st := range steps {
-			bound[st.left], bound[st.right] = true, true
-		}
-		need := []string{"system", "host", "path", "hostPort"}
-		missing := ""
-		for _, v := range need {
-			if !bound[v] {
-				missing += v + " "
-			}
-		}
-		c.Check(missing == "", "bindings", "system, host, hostPort and path are bound directly by the cuts", c.P.Pos(parse.Decl.Pos()), "not bound by a cut: "+missing)
 	})
 
 	c.Rule("rejections", func() {
@@ -399,11 +467,17 @@ func runC26(c *Ctx) {
 		// number). A rejection that looks at the characters of a field can reject the text form of a valid address.
 		f := c.NewFlow(parse)
 		info := f.Info
+		var cutLeft []string
+		if steps, _ := extractCuts(parse); len(steps) > 0 {
+			for _, st := range steps {
+				cutLeft = append(cutLeft, st.left)
+			}
+		}
 		recognised := func(e ast.Expr) bool {
 			e = ast.Unparen(e)
 			switch x := e.(type) {
 			case *ast.Ident:
-				return x.Name == "ok"
+				return commaOkLocals(info, parse.Decl.Body)[info.ObjectOf(x)]
 			case *ast.CallExpr:
 				if cal := callee(info, x); cal != nil && cal.Pkg() != nil && cal.Pkg().Path() == "strings" && (cal.Name() == "Contains" || cal.Name() == "HasPrefix") {
 					_, isLit := strConst(info, x.Args[1])
@@ -416,19 +490,29 @@ func runC26(c *Ctx) {
 				if _, ok := x.Y.(*ast.IndexExpr); ok {
 					return false
 				}
-				l, r := types.ExprString(x.X), types.ExprString(x.Y)
-				if l == "addr" && r == `""` {
-					return true
-				}
-				if l == "schemePart" && r == "scheme" {
-					return true
-				}
-				if l == "err" && r == "nil" {
-					return true
-				}
-				if l == "sep" {
-					if v, ok := constInt(info, x.Y); ok && v == 0 && x.Op == token.LSS {
+				lo := objOf(info, x.X)
+				// the input itself compared with the empty string
+				if ps := parse.Obj.Type().(*types.Signature).Params(); ps.Len() == 1 && lo == types.Object(ps.At(0)) {
+					if sv, isS := strConst(info, x.Y); isS && sv == "" {
 						return true
+					}
+				}
+				// the scheme part (left of the first cut) compared with the package's scheme constant
+				if k, isK := objOfConst(info, x.Y); isK && k.Name() == "scheme" && len(cutLeft) > 0 && lo != nil && lo.Name() == cutLeft[0] {
+					return true
+				}
+				// an error result compared with nil
+				if isNilIdent(info, x.Y) && lo != nil && types.Identical(lo.Type(), types.Universe.Lookup("error").Type()) {
+					return true
+				}
+				// a strings index result compared with 0
+				if id, ok := ast.Unparen(x.X).(*ast.Ident); ok && x.Op == token.LSS {
+					if v, ok := constInt(info, x.Y); ok && v == 0 {
+						if def, ok := singleLocalDefIn(info, parse.Decl.Body, info.ObjectOf(id)).(*ast.CallExpr); ok {
+							if cal := callee(info, def); cal != nil && cal.Pkg() != nil && cal.Pkg().Path() == "strings" && strings.Contains(cal.Name(), "Index") {
+								return true
+							}
+						}
 					}
 				}
 			}
@@ -453,8 +537,8 @@ func runC26(c *Ctx) {
 			n++
 			var facts []condFact
 			condDisj(f.Cond(b), &facts)
-			for _, ft := range facts {
-				c.Check(recognised(ft.E), "reject-if/"+types.ExprString(ft.E), "Parse rejects only on structural conditions (delimiter missing or repeated, wrong scheme, non-numeric port), never on the characters inside a field", c.P.Pos(ft.E.Pos()),
+			for fi, ft := range facts {
+				c.Check(recognised(ft.E), fmt.Sprintf("reject-if/#%d.%d", n, fi), "Parse rejects only on structural conditions (delimiter missing or repeated, wrong scheme, non-numeric port), never on the characters inside a field", c.P.Pos(ft.E.Pos()),
 					"rejection condition "+types.ExprString(ft.E)+" is not a structural test: the text form of a valid address (e.g. an IPv6 host ending in '::') may be rejected")
 			}
 		}
